@@ -85,6 +85,7 @@ func ParseObserve(text string) (obs any, src *formula.SourceCode) {
 			obs = proj.T{"PANIC", fmt.Sprint(r)}
 		}
 	}()
+	defer HangGuard(fmt.Sprintf("parsing %q", text))()
 	src, err := formula.ParseSourceCode([]byte(text))
 	if err != nil {
 		return proj.T{"REJECT"}, src
